@@ -194,6 +194,15 @@ def _gen_float(r, k, depth):
         s["precision"] = prec
         rest.append("precision")
     r.shuffle(rest)
+    if "value" in s and prec is not None and prec <= 6 and abs(w) < 1e6 and r.random() < 0.1:
+        # a bound on the wrong side of the pinned value by less than half a grid step, declared *after*
+        # value and precision: refused today (-> discarded); a tree that compares rounded values lets it in
+        side = r.choice(("min", "max"))
+        eps = 0.4 * 10.0 ** -prec
+        s[side] = enc(w + eps if side == "min" else w - eps)
+        rest = [x for x in rest if x != side]
+        s["order"] = order + [x for x in rest if x == "precision"] + [side] + [x for x in rest if x != "precision"]
+        return s, w
     s["order"] = order + rest
     return s, w
 
@@ -239,6 +248,8 @@ def _gen_str(r, k, depth):
             s["len"] = ["min", n - down]
         else:
             s["len"] = ["max", n + up]
+        if r.random() < 0.04 and s["len"][0] in ("range", "min"):
+            s["len"][1] = -r.choice((1, 2, 7))           # a negative lower bound is a legal (idle) declaration
         rest.append("len")
     if r.random() < k.p_constraint:
         x = r.random()
@@ -363,10 +374,23 @@ def equal_instants():
             datetime(2021, 11, 7, 1, 30, fold=0), datetime(2021, 11, 7, 1, 30, fold=1)]
 
 
+def dst_fold_instants():
+    """Aware datetimes whose wall time is the repeated hour at the end of DST in a zoneinfo zone: Python
+    compares such a value *unequal* to its own conversion to another zone (inter-zone comparison of an
+    ambiguous time), so any normalisation of a pinned datetime shows."""
+    try:
+        from zoneinfo import ZoneInfo
+        return [datetime(2021, 10, 31, 2, 30, tzinfo=ZoneInfo("Europe/Berlin"), fold=0),
+                datetime(2021, 10, 31, 2, 30, tzinfo=ZoneInfo("Europe/Berlin"), fold=1),
+                datetime(2021, 11, 7, 1, 30, tzinfo=ZoneInfo("America/New_York"), fold=1)]
+    except Exception:
+        return []
+
+
 def _gen_datetime(r, k, depth):
     if r.random() < 0.08:
-        w = r.choice(equal_instants())
-        return {"t": "datetime", "value": enc(w)}, w
+        w = r.choice(equal_instants() + dst_fold_instants())
+        return ({"t": "datetime", "value": enc(w)} if r.random() < 0.7 or k.no_clock else {"t": "datetime"}), w
     w = datetime(r.randint(1971, 2090), r.randint(1, 12), r.randint(1, 28), r.randint(0, 23),
                  r.randint(0, 59), r.randint(0, 59), r.choice((0, 999999, r.randrange(10 ** 6))))
     if r.random() < 0.1:
@@ -380,6 +404,10 @@ def _gen_datetime(r, k, depth):
 
 def _gen_date(r, k, depth):
     w = date(r.randint(1971, 2090), r.randint(1, 12), r.randint(1, 28))
+    if r.random() < 0.06:
+        # a datetime is a date: schema.date(datetime(...)) is a legal declaration
+        w = datetime(w.year, w.month, w.day, r.randint(0, 23), r.randint(0, 59), r.randint(0, 59))
+        return {"t": "date", "value": enc(w)}, w
     s = {"t": "date"}
     if k.no_clock or r.random() < k.p_value:
         s["value"] = enc(w)
@@ -393,7 +421,7 @@ V1_UUID = UUID("c232ab00-9414-11ec-b3c8-9f68deced846")
 def _filler(r):
     return r.choice((None, 0, 1, "f", [], {}, 2.5, True, [1], {"k": 1}, 1.0, 0.0, -0.0, False, b"b",
                      NIL_UUID, V1_UUID, UUID(int=5, version=4), date(2020, 2, 29), datetime(2020, 2, 29, 1, 2, 3),
-                     "e\u0301", "\u212b", {"ok?": None}) + tuple(equal_instants()[:3]))
+                     "e\u0301", "\u212b", {"ok?": None}) + tuple(equal_instants()[:3]) + tuple(dst_fold_instants()[:2]))
 
 
 def _len_for_typed(r, k, n):
